@@ -609,6 +609,7 @@ class SimRaw(io.RawIOBase):
         self._of = of
         self.name = name
         self.mode = mode if "b" in mode else mode + "b"
+        self._fd = None
 
     def readable(self):
         return self._of.readable
@@ -620,7 +621,16 @@ class SimRaw(io.RawIOBase):
         return True
 
     def fileno(self):
-        raise io.UnsupportedOperation("SimFS files have no host descriptor")
+        # a fake descriptor (>= 10^6, never a host one) naming the same open file, so that os.fsync(f.fileno()),
+        # os.fstat(f.fileno()) ... reach the simulated file; it goes away when the file object is closed
+        if self.closed:
+            raise ValueError("I/O operation on closed file")
+        if self._fd is None:
+            fs = self._fs
+            self._fd = fs._next_fd
+            fs._next_fd += 1
+            fs.fds[self._fd] = self._of
+        return self._fd
 
     def isatty(self):
         return False
@@ -662,6 +672,8 @@ class SimRaw(io.RawIOBase):
             try:
                 super().close()
             finally:
+                if self._fd is not None:
+                    self._fs.fds.pop(self._fd, None)
                 self._fs._close(self._of)
 
 
